@@ -122,10 +122,23 @@ def run(ctx, report):
                  {"measured": resolved, "required": f"''.join({cap}.to_real_caption().get_text_nodes())"}, "2")
     gt = ctx.index.get_function("pycaption/base.py", "Caption.get_text_nodes")
     report.covered(gt)
-    t = src(gt.node)
-    ok = "node.type_ == CaptionNode.TEXT" in t and "return node.content" in t and "node.type_ == CaptionNode.BREAK" in t \
-        and "return '\\n'" in t
-    report.check(ok, "R-WHOLE-TEXT", gt, "get_text_nodes yields the content of text nodes and a newline per break", None, "2")
+    # folded on a stub caption with one node of each kind (constant evaluation of the source)
+    from ..core.constfold import Folder, Stub
+    folder = ctx.memo("folder", lambda: Folder(ctx.index))
+    node_cls = ctx.index.get_class("pycaption/base.py", "CaptionNode")
+    cap_cls = ctx.index.get_class("pycaption/base.py", "Caption")
+    kinds = {k: folder.eval_in(node_cls.module, node_cls.class_attrs[k]) for k in ("TEXT", "STYLE", "BREAK")}
+    nodes = [Stub("text-node", {"type_": kinds["TEXT"], "content": "ab"}, cls=node_cls),
+             Stub("break-node", {"type_": kinds["BREAK"], "content": None}, cls=node_cls),
+             Stub("style-node", {"type_": kinds["STYLE"], "content": {"italics": True}, "start": True}, cls=node_cls),
+             Stub("text-node", {"type_": kinds["TEXT"], "content": " c "}, cls=node_cls)]
+    try:
+        got = folder.call_function(gt, [], self_value=Stub("caption", {"nodes": nodes}, cls=cap_cls))
+    except AnalysisError as e:
+        raise AnalysisError(f"Caption.get_text_nodes cannot be folded: {e}")
+    ok = list(got) == ["ab", "\n", "", " c "] or [x for x in got if x] == ["ab", "\n", " c "]
+    report.check(ok, "R-WHOLE-TEXT", gt, "get_text_nodes yields the content of text nodes and a newline per break",
+                 {"folded_on": "text 'ab', break, style, text ' c '", "result": list(got)}, "2")
 
     # clause 3 ---------------------------------------------------------------
     raises = [n for n in walk_no_nested(fn.node) if isinstance(n, ast.Raise) and isinstance(n.exc, ast.Call)
